@@ -37,7 +37,6 @@ import (
 	"time"
 
 	"github.com/innovationb1ue/RedisGO/config"
-	"github.com/innovationb1ue/RedisGO/memdb"
 	"github.com/innovationb1ue/RedisGO/server"
 )
 
@@ -290,13 +289,8 @@ func memxCmd(args []string) error {
 			if mode == "tcp" {
 				continue
 			}
-			now := time.Now().Unix()
-			for i, d := range mgr.DBs {
-				for _, l := range memdb.VerifDump(d, now) {
-					fmt.Fprintf(w, "D %d %s\n", i, l)
-				}
-			}
-			fmt.Fprintf(w, "DEND %d\n", now)
+			// defensive walk: a nil entry of mgr.DBs is reported as a NOTE line, never a crash
+			dumpDBs(w, mgr)
 		case "END":
 			closeConns()
 			fmt.Fprintf(w, "END\n")
